@@ -1905,7 +1905,12 @@ func (h *Hub) processJoinRoom(session *ClientSession, message *ClientMessage, ro
 	h.mu.Unlock()
 	session.SetRoom(r)
 	if room.Room.Permissions != nil {
-		session.SetPermissions(*room.Room.Permissions)
+		// Handled like a permissions update so publishers that were created
+		// before and are not covered by the new permissions get closed.
+		session.processAsyncMessage(&AsyncMessage{
+			Type:        "permissions",
+			Permissions: *room.Room.Permissions,
+		})
 	}
 	h.sendRoom(session, message, r)
 	r.AddSession(session, room.Room.Session)
